@@ -39,7 +39,18 @@ def JV.strVal? : JV → Option String | .str s => some s | _ => none
 /-- the `$ref` text of an object (UnmarshalJSON of the wrappers: a non-empty string; with anything else the
     object is decoded as the value) -/
 def JV.refText? (j : JV) : Option String :=
-  match j.get? "$ref" with | some (.str s) => if s.isEmpty then none else some s | _ => none
+  match j.get? "$ref" with
+  | some (.str s) => if s.isEmpty then none else some s
+  | some (.num "inf") => some "<number beyond float64>"     -- read as a string by the YAML fallback (typed members only)
+  | _ => none
+
+/-- a plainly decoded (extension) value: a number beyond float64 stays a number there -/
+def JV.plain : Nat → JV → JV
+  | 0, j => j
+  | _, .num "inf" => .num "nz"
+  | fuel + 1, .arr xs => .arr (xs.map (JV.plain fuel))
+  | fuel + 1, .obj kvs => .obj (kvs.map (fun kv => (kv.1, JV.plain fuel kv.2)))
+  | _, j => j
 
 /-- the `$ref` of a path item (a plain struct field `Ref string`): a number or boolean there makes
     `json.Unmarshal` fail, and the YAML fallback of `unmarshal` reads it as a string — some text without '#'
@@ -466,7 +477,7 @@ def targetJ (cfg : Cfg) (ds : Docs) (doc : Nat) (text : String) (k : Kind) : Tgt
       let rawTgt (_ : Unit) : TgtJ :=
         if ds.hasPath || d != 0 then
           match drillRaw ds d toks with
-          | some (.obj kvs) => .raw d path (.obj kvs)
+          | some (.obj kvs) => .raw d path (JV.plain 64 (.obj kvs))
           | _ => .err
         else .err
       -- `resolveRefAndDocument`: the other document is loaded (decoded as `T`) before anything is drilled
@@ -478,10 +489,10 @@ def targetJ (cfg : Cfg) (ds : Docs) (doc : Nat) (text : String) (k : Kind) : Tgt
         if ty == expectedTy k then .wrapper d path j
         else if ty == .mapOf .any then
           -- `map[string]any`: re-encoded and decoded into the wrapper; a nil map encodes as `null`
-          if j.fields.isEmpty then .rawEmpty d path else .raw d path j
+          if j.fields.isEmpty then .rawEmpty d path else .raw d path (JV.plain 64 j)
         else .err
       | .found (.nilOf ty) => if ty == expectedTy k then .nilPtr else .err
-      | .found (.anyv (.obj kvs)) => .raw d path (.obj kvs)
+      | .found (.anyv (.obj kvs)) => .raw d path (JV.plain 64 (.obj kvs))
       | .found (.anyv _) => .err
 
 def TgtJ.toTgt (k : Kind) : TgtJ → Tgt
